@@ -10,7 +10,10 @@
 #if defined(MODEL_UF)
 /* values are opaque 64-bit tokens; arithmetic is uninterpreted (functional
  * consistency only).  A proof holds for every interpretation of + - * / etc.    */
-typedef unsigned long V;
+#ifndef CXC_UF_T
+#define CXC_UF_T unsigned long   /* token width knob (bounded units may use a narrower token: EUF small-model property) */
+#endif
+typedef CXC_UF_T V;
 V __CPROVER_uninterpreted_add(V, V);
 V __CPROVER_uninterpreted_sub(V, V);
 V __CPROVER_uninterpreted_mul(V, V);
